@@ -104,11 +104,93 @@ def unalias_fixed_attrs(repo, cls) -> int:
     return done
 
 
+def unroll_simple_generators(repo, cls) -> int:
+    """Normalisation (idempotent, meaning-preserving): `for v in self.g(a, ...): BODY` where g is a generator method of `cls`
+    whose whole body is `while TEST: yield EXPR` reads `while TEST': v = EXPR'; BODY` (parameters replaced by the arguments,
+    which must be plain names / attribute chains / constants that the generator does not rebind).  The generator's test is
+    evaluated exactly when the loop asks for the next element, so the two are the same program; the rules about the
+    room-making loop then see its test and what it evicts."""
+    if getattr(cls, "_generators_unrolled", False):
+        return 0
+    cls._generators_unrolled = True
+    import copy
+
+    def pure(e):
+        return isinstance(e, ast.Constant) or isinstance(e, ast.Name) or (isinstance(e, ast.Attribute) and pure(e.value))
+
+    simple = {}
+    for name, m in cls.methods.items():
+        if m.is_static or m.is_classmethod or not m.params or m.decorators:
+            continue
+        body = A.sig_stmts(m.node.body)
+        if len(body) != 1 or not isinstance(body[0], ast.While) or body[0].orelse:
+            continue
+        wb = A.sig_stmts(body[0].body)
+        if len(wb) != 1 or not (isinstance(wb[0], ast.Expr) and isinstance(wb[0].value, ast.Yield) and wb[0].value.value is not None):
+            continue
+        a = m.node.args
+        if a.vararg or a.kwarg or a.kwonlyargs or a.defaults or any(isinstance(n, (ast.Yield, ast.YieldFrom, ast.NamedExpr, ast.Lambda)) for n in ast.walk(body[0].test)) \
+                or any(isinstance(n, (ast.Yield, ast.YieldFrom, ast.NamedExpr, ast.Lambda)) for n in ast.walk(wb[0].value.value)):
+            continue
+        simple[name] = (m, body[0].test, wb[0].value.value)
+    if not simple:
+        return 0
+    done = 0
+    for name, m in cls.methods.items():
+        if name in simple or not m.params or m.is_static:
+            continue
+        me = m.params[0]
+
+        class T(ast.NodeTransformer):
+            def visit_For(self, node):
+                self.generic_visit(node)
+                nonlocal done
+                it = node.iter
+                if not (isinstance(it, ast.Call) and isinstance(it.func, ast.Attribute) and isinstance(it.func.value, ast.Name) and it.func.value.id == me
+                        and it.func.attr in simple and not it.keywords and all(pure(x) for x in it.args)):
+                    return node
+                (g, test, elem) = simple[it.func.attr]
+                params = g.params[1:]
+                if len(params) != len(it.args):
+                    return node
+                bind = dict(zip(params, it.args))
+                bind[g.params[0]] = ast.Name(id=me, ctx=ast.Load())
+
+                def subst(e):
+                    class S(ast.NodeTransformer):
+                        def visit_Name(self, n):
+                            if isinstance(n.ctx, ast.Load) and n.id in bind:
+                                return ast.copy_location(copy.deepcopy(bind[n.id]), n)
+                            return n
+                    return S().visit(copy.deepcopy(e))
+
+                # names of the generator other than its parameters would be its own locals: there are none in `while T: yield E`
+                free = {n.id for e in (test, elem) for n in ast.walk(e) if isinstance(n, ast.Name)} - set(bind)
+                local_names = {n.id for n in ast.walk(m.node) if isinstance(n, ast.Name) and isinstance(n.ctx, (ast.Store, ast.Del))} | set(m.params)
+                if free & local_names:
+                    return node  # a global of the generator would be captured by a local of the caller
+                first = ast.copy_location(ast.Assign(targets=[node.target], value=ast.copy_location(subst(elem), node.iter), type_comment=None), node.iter)
+                new = ast.copy_location(ast.While(test=ast.copy_location(subst(test), node.iter), body=[first] + node.body, orelse=node.orelse), node)
+                done += 1
+                return new
+
+        T().visit(m.node)
+        ast.fix_missing_locations(m.node)
+    # a generator whose every use was unrolled is gone from the class tables (like a helper whose every call was inlined)
+    for gname in list(simple):
+        used = any(isinstance(n, ast.Attribute) and n.attr == gname for mod in repo.modules.values() for n in ast.walk(mod.tree)
+                   if not any(n is y for y in ast.walk(simple[gname][0].node)))
+        if not used and done:
+            cls.methods.pop(gname, None)
+    return done
+
+
 class CacheModel:
     def __init__(self, ck):
         self.ck = ck
         repo = ck.repo
         self.cls = repo.cls(CACHE_CLASS)
+        unroll_simple_generators(repo, self.cls)
         unalias_fixed_attrs(repo, self.cls)
         init = self.cls.methods.get("__init__")
         ck.need(init is not None, "MemoryCache.__init__ not found")
